@@ -30,7 +30,13 @@ def runMonitor (pid : String) (c : MonCtx) (ls : List Label) : Option (Option Na
       | some k => some k
       | none => match ff (monC02t c) ls with
         | some k => some k
-        | none => ff (monC02wf c) ls)
+        | none => match ff (monC02wf c) ls with
+          | some k => some k
+          -- "awaits complete with the termination result": an await returns Ok only after a graceful end (the
+          -- announcement clauses of monC04) and with an error after a failure (monC06); both proved
+          | none => match ff (monC04 c) ls with
+            | some k => some k
+            | none => ff (monC06 c) ls)
   | "C03" => some (match ff (monC03 c) ls with
       | some k => some k
       | none => ff (monC03q c) ls)
